@@ -132,6 +132,13 @@ def step : List String → String
     | some e, some bc, some u, some ch, some d => resLine hx (darCommon ⟨d, bc, u, ch, e⟩) | _, _, _, _, _ => "bad-op"
   | "dar_msg" :: e :: bc :: u :: ch :: t => match parseBool e, parseNat bc, parseHex u, parseHex ch, parseDcToks t with
     | some e, some bc, some u, some ch, some d => resLine hx (darMsg ⟨d, bc, u, ch, e⟩) | _, _, _, _, _ => "bad-op"
+  | ["create_check", cls, ma, mi, ul, rk, rb, dk, db] =>
+    let kind (k : String) (b : Nat) : Option KeyKind := if k == "rsa" then some (.rsa b) else if k == "ecc" then some (.ecc b) else none
+    match parseCls? cls, parseNat ma, parseNat mi, parseNat ul, parseNat rb, parseNat db with
+    | some c, some ma, some mi, some ul, some rb, some db =>
+      (match kind rk rb, kind dk db with
+       | some r, some d => resLine unitStr (createCheck c ma mi ul r d) | _, _ => "bad-op")
+    | _, _, _, _, _, _ => "bad-op"
   | ["rows"] => s!"ok:{rows.length}"
   | _ => "bad-op"
 
